@@ -34,6 +34,8 @@ unsigned char verif_stream_byte(unsigned k, unsigned long i);
 void verif_stream_put(unsigned k, unsigned char b); // append one byte
 int verif_stream_failed(unsigned k);
 void verif_stream_reset(unsigned k);
+// C11 (engine E2): declares [p, p+size) as memory several threads can reach; accesses are checked by the lockset monitor
+void verif_shared(void *p, unsigned long size);
 }
 
 static inline int verif_stream_equal(unsigned a, unsigned b, unsigned long maxn) {
